@@ -233,7 +233,7 @@ func anyUnaddressable(segs []string) bool {
 			return true
 		}
 	}
-	return false
+	return segs[len(segs)-1] == "..." // a trailing "..." is the append-elements marker, not a key
 }
 
 // goSpelling: does Go print this float the way JSON does?
@@ -367,7 +367,7 @@ func oracleWrite(st step, r response, hdr string, ref *etagRec, pre *response, p
 	}
 	accepted := r.status == 200
 	// ---- If-Match: a conditional write succeeds only if the value is unchanged
-	if ref != nil && pre != nil {
+	if ref != nil && pre != nil && (pre.status == 200 || pre.status == 400) {
 		unchanged := pre.status == 200 && bytes.Equal(pre.body, ref.body)
 		if accepted && !unchanged {
 			fail(fails, "if-match-stale-write-accepted", "%s %s with If-Match %s was accepted although the value changed since the ETag was issued (then %q, now %q)",
@@ -412,15 +412,14 @@ func oracleWrite(st step, r response, hdr string, ref *etagRec, pre *response, p
 		}
 		want, defined := specApply(root, segs, st.m, ell, body)
 		switch {
+		case nestedArrayTarget(root, segs) && cur.cfgEnc == prev.cfgEnc && !(defined && deepEqual(want.(map[string]any)["config"], cur.cfg)):
+			fail(fails, "nested-array-element-not-addressable", "%s %s answered 200 and did nothing: the target is an element of an array that sits directly in an array (configuration %s)",
+				methodName[st.m], st.path, jsonText(prev.cfg))
 		case !defined:
 			fail(fails, "write-accepted-on-invalid-path", "%s %s answered 200 but the path/method is not applicable to the configuration %s",
 				methodName[st.m], st.path, jsonText(prev.cfg))
 		case !deepEqual(want.(map[string]any)["config"], cur.cfg):
-			class := "write-wrong-effect"
-			if nestedArrayTarget(root, segs) && cur.cfgEnc == prev.cfgEnc {
-				class = "nested-array-element-not-addressable"
-			}
-			fail(fails, class, "%s %s %s on %s gives %s; the reference document store gives %s",
+			fail(fails, "write-wrong-effect", "%s %s %s on %s gives %s; the reference document store gives %s",
 				methodName[st.m], st.path, jsonText(body), jsonText(prev.cfg), jsonText(cur.cfg), jsonText(want.(map[string]any)["config"]))
 		}
 	}
@@ -470,6 +469,8 @@ func checkIDs(cur observation, fails *[]core.Failure, tags map[string]bool) {
 		what := fmt.Sprintf("the object tagged \"@id\": %s at /%s is not what GET /id/%s returns (status %d, body %q)",
 			jsonText(t.obj["@id"]), strings.Join(t.segs, "/"), t.id, r.status, r.body)
 		switch {
+		case nestedArrayTarget(rootOf(cur.cfg), t.segs) && r.status == 200 && len(r.body) == 0:
+			fail(fails, "nested-array-element-not-addressable", "%s", what)
 		case len(t.segs) == 1 && r.status == 301:
 			fail(fails, "id-on-root-object-redirects", "%s", what)
 		case anyUnaddressable(t.segs):
